@@ -6,13 +6,15 @@ import GabiModel.Ops.Base
 import GabiModel.Ops.Basic
 import GabiModel.Ops.KeysOps
 import GabiModel.Ops.Crypto
+import GabiModel.Ops.RevOps
 namespace Gabi.Ops
 open Lean Gabi Gabi.Wire
 
 def handlers : List Handler := [
   Basic.handle,
   KeysOps.handle,
-  Crypto.handle
+  Crypto.handle,
+  RevOps.handle
 ]
 
 def run (st : State) (op : String) (j : Json) : R (State × String) :=
